@@ -386,6 +386,7 @@ class SourceIndex:
                         nxt in m.imports
                         and nxt not in m.classes
                         and nxt not in m.functions
+                        and nxt not in m.assigns  # a module-level assignment after the import re-binds the name (`random = random.Random(..)`)
                     ):
                         tgt = m.imports[nxt]
                         new = ".".join([tgt, *parts[i + 1 :]])
